@@ -312,6 +312,7 @@ func ruleC07Extra(prog *Program, rep *Report) {
 	ruleEntryParity(prog, rep)
 	ruleRestore(prog, rep)
 	ruleReturnAlias(prog, rep, "C07")
+	ruleBorrowedWrites(prog, rep)
 }
 
 // ruleRestore: a field saved to a local, overwritten and restored later must
